@@ -177,7 +177,7 @@ def check(ctx) -> None:
     ctx.rule("C23.generate", "ABSINT: generate_literal for every requested type under configurations with sizes 0 / 1 / default and scripted draws (lowest, highest, seeded) yields, without raising, valid tokens that evaluate to a value of the requested type within the configured maximum size", floor=90)
     _generation(ctx, repo)
     ctx.rule("C23.render", "ABSINT: literal_to_cst over the value partition: valid tokens, rendered text evaluates to the same value (type, sign of zero, inf, nan)", floor=40)
-    ctx.rule("C23.parse", "ABSINT: parse_literal(literal_to_cst(v), type(v)) is v for every primitive representative (the parser accepts exactly the shapes the renderer emits)", floor=30)
+    ctx.rule("C23.parse", "ABSINT: parse_literal(literal_to_cst(v), type(v)) is v for every primitive representative (the parser accepts exactly the shapes the renderer emits); hexadecimal / octal / binary / underscored int spellings are read as Python reads them", floor=40)
     ctx.rule("C23.ml-twin", "sibling renderer ml_value_to_cst agrees on the same float/int partition", floor=20)
     ctx.rule("C23.tables", "generate_literal, _dispatch_mutate, parse_literal and literal_to_cst cover the same primitive types; bool is tested before int", floor=8)
     ctx.rule("C23.uncached", "no value renderer is memoised (0.0 / -0.0, 1 / 1.0 / True / (1+0j) are equal and hash alike: a cache would return the node of another value)", floor=4)
@@ -231,6 +231,42 @@ def check(ctx) -> None:
             ctx.fail("C23.parse", pl, f"{label}: parsing its own rendering raises {exc.name}", stmt=f"[partition] {label}")
             continue
         ctx.check("C23.parse", pl, parsed is not None and same(v, parsed), f"{label}: rendered as `{cstterm.render(term)}` but parse_literal returns {_short(parsed)}: rendering and parsing back is not the identity", what=f"{label} parses back", stmt=f"[partition] {label}")
+
+    # int literals as a seeded (hand-written or earlier exported) test may spell them: the parser must read what Python reads
+    for text in ("0xFF", "0o755", "0b101", "1_000", "0XAB", "00", "12"):
+        for neg in (False, True):
+            tok = peval.Term("cst.Integer", [], {"value": text})
+            term = peval.Term("cst.UnaryOperation", [], {"operator": peval.Term("cst.Minus", [], {}), "expression": tok}) if neg else tok
+            label = f"int literal `{'-' if neg else ''}{text}`"
+            want = -int(text, 0) if neg else int(text, 0)
+            try:
+                parsed = interp().run_function(pl, [term, int], {}, mod)
+            except peval.Undecided as exc:
+                ctx.undecide("C23.parse", pl, f"{label}: {exc}")
+                continue
+            except peval.Raises as exc:
+                ctx.fail("C23.parse", pl, f"{label}: parse_literal raises {exc.name} ({exc.detail[:50]}): mutating or locally searching a seeded test that contains this literal crashes", stmt=f"[spelling] {label}")
+                continue
+            ctx.check("C23.parse", pl, parsed == want and type(parsed) is int, f"{label}: parse_literal returns {_short(parsed)}, Python reads {want}", what=f"{label} -> {want}", stmt=f"[spelling] {label}")
+
+    # a tuple written without parentheses (`x = 1,` in a seeded test) that loses its last element: libcst refuses an
+    # empty tuple without parentheses, so the mutation must add them
+    mt = repo.try_func(LG, "_mutate_tuple")
+    if mt is None:
+        raise AnalysisError("anchor vanished: literalgen._mutate_tuple")
+    ctx.analysed(mt)
+    for n_elems in (1, 2):
+        label = f"tuple of {n_elems} written without parentheses, one element removed"
+        bare = peval.Term("cst.Tuple", [], {"elements": [peval.Term("cst.Element", [], {"value": peval.Term("cst.Integer", [], {"value": str(i + 1)})}) for i in range(n_elems)], "lpar": [], "rpar": []})
+        it = peval.Interp(resolver=resolver, ctor_prefixes=("cst.",), externs={"randomness.next_bool": lambda: True, "randomness.next_int": lambda a, b: a}, max_steps=100000)
+        try:
+            out = it.run_function(mt, [bare, peval.Obj("constant_provider")], {}, mod)
+        except (peval.Undecided, peval.Raises) as exc:
+            ctx.undecide("C23.generate", mt, f"{label}: {exc}")
+            continue
+        elems = out.fields.get("elements") if isinstance(out, peval.Term) else None
+        ok = isinstance(out, peval.Term) and out.name.endswith("Tuple") and (bool(elems) or (bool(out.fields.get("lpar")) and bool(out.fields.get("rpar"))))
+        ctx.check("C23.generate", mt, ok, f"{label}: the result has {len(elems or [])} element(s) and no parentheses - libcst rejects it (`A zero-length tuple must be wrapped in parentheses`), mutating the seeded test crashes", what=f"{label}: still a valid tuple literal", stmt=f"[bare tuple] {n_elems}")
 
     # ------------------------------------------------------------------ C23.ml-twin
     if repo.has_module(ML):
